@@ -294,6 +294,8 @@ pub struct Drv {
     pub observe_rx: bool,
     /// Never let time pass while a write or flush is waiting for its decision: `go` first.
     pub settle_writes: bool,
+    /// Properties added to every successful CONNACK of this program.
+    pub connack_extra: Vec<PropSpec>,
 }
 
 pub const TICK_CAP: u64 = 1_000_000_000_000;
@@ -324,6 +326,7 @@ impl Drv {
             hold_after: false,
             observe_rx: false,
             settle_writes: false,
+            connack_extra: Vec::new(),
         }
     }
 
@@ -521,7 +524,11 @@ impl Drv {
             Sp::IfAsked => !self.broker.clean_start,
             Sp::Fixed(sp) => sp,
         };
-        let bytes = wire::connack(sp, spec.rc, &wire::enc_props(&spec.props));
+        let mut props = spec.props.clone();
+        if spec.rc == 0 {
+            props.extend(self.connack_extra.iter().cloned());
+        }
+        let bytes = wire::connack(sp, spec.rc, &wire::enc_props(&props));
         let after = self.broker.on_connack(sp, spec.rc, &mut self.rng);
         self.send_raw(if spec.rc == 0 { "connack" } else { "connack-refused" }, &bytes);
         self.go();
